@@ -446,7 +446,7 @@ func itoa(i int) string {
 
 // ErrEdgeEnds: wherever ev is known non-nil, control reaches only returns, and those return a non-nil error.
 func (w *World) ErrEdgeEnds(fn *ssa.Function, ev ssa.Value) bool {
-	f := w.Facts(fn)
+	f := w.factsOf(fn)
 	idx := errorResultIndex(fn)
 	seen := false
 	for _, b := range fn.Blocks {
